@@ -12,7 +12,7 @@ import Lumina.Proofs.NmtMultiShare
 namespace Lumina.Proofs.NmtMulti
 open Lumina.Util Lumina.Model.Nmt Lumina.Model.Eds
 open Lumina.Proofs.Nmt Lumina.Proofs.NmtRange Lumina.Proofs.Eds Lumina.Proofs.Sample
-open Lumina.Model.ShareProof (sharesNeeded rangeLoop buildLoop BuildOutcome u32Max)
+open Lumina.Model.ShareProof (sharesNeeded rangeLoop buildLoop BuildOutcome u32Max u64Max)
 open Lumina.Spec.C13 (pathsOk ProofObs)
 open Lumina.Model.Merkle (HashFns)
 
@@ -201,7 +201,8 @@ theorem buildLoop_ok {D : Type} [DecidableEq D] (H : HashFns D) {h : HashFn} (hl
         rw [List.length_append, hBlen] at hacc
         unfold sharesNeeded
         have c2 : ¬ (en ≤ s) := by omega
-        have c3 : ¬ (u32Max < acc + (en - s)) := by omega
+        have h3264 : u32Max ≤ u64Max := by decide
+        have c3 : ¬ (u64Max < acc + (en - s)) := by omega
         simp only [Bool.false_eq_true, ↓reduceIte, c2, c3]
         rw [hsn (acc + (en - s)) (by omega), List.length_append, hBlen]
         congr 1; omega
